@@ -26,8 +26,13 @@ THREADS = [2, 2, 3, 4, 4, 8, 16]
 
 
 def gen_workload(kind, seed, size):
-    if kind in ("c10", "c11"):
-        t = (T.gen_c10 if kind == "c10" else T.gen_c11)(seed, size)
+    if kind in ("c10", "c11", "c11c"):
+        if kind == "c11c":
+            # synthesised programs: always a subsumptive relation that is read through several indexes
+            t = T.gen_c11(seed, size, always=(random.Random(seed).choice(["secondary", "secondary3"]),))
+            kind = "c11"
+        else:
+            t = (T.gen_c10 if kind == "c10" else T.gen_c11)(seed, size)
         meta = dict(t.meta)
         meta.pop("edb", None)
         meta.update({"template": kind, "rules": t.rules, "no_rule_min": True, "outputs": t.outputs})
@@ -55,6 +60,10 @@ def mk_cases_default(k, mode="interp", extra_args=(), port_faults=True, binary_o
             tick = r.choice(tick_choices) if tick_choices else None
             # plain-access sampling period (K=1 multiplies the number of schedule steps by ~10)
             plain = r.choice([0, 0, 0, 64, 64, 8, 1])
+            if plain == 1 and tick and tick > 10000:
+                # every plain access a step and a millisecond per step: the profiler's timer thread is due again before it
+                # finished logging and starves the workers for billions of steps (legitimate, but useless)
+                tick = 10000
             xa = alt_extra_args if alt_extra_args is not None and r.random() < 0.3 else extra_args
             cases.append(Case(w, mode, n, seed, faults, xa, binary=binary_of(w) if binary_of else None, tick_ns=tick,
                               env={"VERIF_SIM_PLAIN": str(plain)}))
